@@ -1328,8 +1328,14 @@ def psi_product_start(check, prog):
             n += 1
             _, var, lo, gdepth = loops[-1]
             inner = guards[gdepth:]
+            # (the exception may be narrowed to where it is needed: `i = 1 and
+            # |psi_0| < |psi_1|` keeps the quotient where it is the accurate one,
+            # at small x and next to the zeros of psi_1)
+            def first_order(c):
+                return c in ('%s.EQ.1' % var, '%s==1' % var) or \
+                    c.startswith('%s.EQ.1.AND.' % var) or c.startswith('%s==1.AND.' % var)
             excepted = lo not in ('1', '0') or any(
-                (c.replace(' ', '') in ('%s.EQ.1' % var, '%s==1' % var) and in_else) or
+                (first_order(c) and in_else) or
                 (c in ('%s.GT.1' % var, '%s.NE.1' % var, '%s>1' % var, '%s/=1' % var,
                        '%s.GE.2' % var, '%s>=2' % var) and not in_else)
                 for c, in_else in inner)
